@@ -32,6 +32,8 @@ package c13
 import (
 	"bytes"
 	"context"
+	"crypto/sha256"
+	"encoding/hex"
 	"encoding/json"
 	"errors"
 	"fmt"
@@ -720,7 +722,15 @@ func (s *sys) lastMsgFor(id string) *msgDesc {
 	return nil
 }
 
+// Fingerprint returns a SHA-256 of the canonical state description: the
+// description itself is several KB (two deep dumps) and the thorough tier keeps
+// millions of them in the explorer's seen-set.
 func (s *sys) Fingerprint() string {
+	sum := sha256.Sum256([]byte(s.describe()))
+	return hex.EncodeToString(sum[:])
+}
+
+func (s *sys) describe() string {
 	var sb strings.Builder
 	dump := func(name string, l []ha.SessionState) {
 		t := tableOf(l)
